@@ -385,6 +385,28 @@ def seed_registry(it, p, regs):
         it.opts.update(saved)
 
 
+def check_unknown(ctx, rule):
+    """An element whose tag names no registered message / no part class is rejected: abstract parse (whole registry
+    seeded) of tags that are unknown, differ in case, or are a prefix / an extension of a known tag."""
+    p = ctx.p
+    regs, opts = parse_opts(p)
+    base = msg_base(p)
+    f = base.find_method("from_xml")
+    fp = part_base(p).find_method("from_xml")
+    for which, fn_, tags in (("message", f, ("fooBar", "GetProperties", "getProperty", "getPropertiesX", "")), ("part", fp, ("fooPart", "OneText", "oneTex", "oneTextX", ""))):
+        bad = None
+        for tag in tags:
+            def run_unknown(it: Interp, fn_=fn_, tag=tag, which=which):
+                seed_registry(it, p, regs)
+                return it.run_function(Fn(fn_, Cls(base if which == "message" else part_base(p))), [xml_element(tag, {"name": "x", "device": "d", "version": "1.7"}, "t")], {})
+
+            paths = explore(p, run_unknown, opts)
+            ctx.paths_enumerated += len(paths)
+            if not (len(paths) == 1 and paths[0].outcome == "raise"):
+                bad = tag
+        ctx.check(bad is None, rule, fn_.short + "[unknown tag]", f"{len(tags)} unknown / near-miss tags all raise", f"an element with the unknown {which} tag <{bad}> is not rejected", fi=fn_, text=f"unknown-tag:{which}", witness=f"<{bad} name='x'/>")
+
+
 def rule_read(ctx):
     p = ctx.p
     regs, opts = parse_opts(p)
@@ -496,13 +518,7 @@ def rule_read(ctx):
         items = ch.args[1][0].items if isinstance(ch, Term) and ch.op == "call" and ch.args[1] and isinstance(ch.args[1][0], (Tup, Lst)) else []
         ok = len(items) == 2 and all(isinstance(o, Obj) and isinstance(o.attrs.get("value"), Const) and o.attrs["value"].v is None for o in items)
     ctx.check(ok, "C03.READ", fp.short + "[empty text]", "absent and empty text both parse to value None", "absent/empty element text does not parse to an absent value", fi=fp, text="empty-text")
-    for which, fn_, tag in (("message", f, "fooBar"), ("part", fp, "fooPart")):
-        def run_unknown(it: Interp, fn_=fn_, tag=tag, which=which):
-            seed_registry(it, p, regs)
-            return it.run_function(Fn(fn_, Cls(base if which == "message" else part_base(p))), [xml_element(tag, {"name": "x"}, "t")], {})
-
-        paths = explore(p, run_unknown, opts)
-        ctx.check(len(paths) == 1 and paths[0].outcome == "raise", "C03.READ", fn_.short + "[unknown tag]", "raises", f"an element with an unknown {which} tag is not rejected", fi=fn_, text=f"unknown-tag:{which}")
+    check_unknown(ctx, "C03.READ")
     ctx.counters["C03.READ:elements parsed abstractly"] = nparsed
     if not bad:
         ctx.holds("C03.READ", f.short, f"{nparsed} abstract parses (all registered kinds with two children each, in registry and reverse order): right class per hierarchy, attributes by name, stripped text, children in document order", fi=f)
